@@ -54,7 +54,9 @@ func scratchDir() string {
 func (v *Verifier) buildQuery(o *Obligation, models bool) (string, []*Term) {
 	asserts := append([]*Term{}, o.Hyps...)
 	if !o.Cover {
-		asserts = append(asserts, Not(o.Goal))
+		// universally quantified parts of the goal are skolemised here, so that the
+		// instantiation passes below see the ground terms of the counterexample
+		asserts = append(asserts, Not(skolemizeGoal(o.Goal)))
 	}
 	// instantiate used lemmas (two rounds: instances may enable further matches)
 	var uses []string
@@ -84,6 +86,10 @@ func (v *Verifier) buildQuery(o *Obligation, models bool) (string, []*Term) {
 	}
 	_, axioms := v.lib.prelude(asserts, o.Opaque, o.Fuel)
 	asserts = append(asserts, axioms...)
+	// arithmetic-aware instantiation of quantified facts at the indices the query accesses
+	if !o.Cover {
+		asserts = append(asserts, instantiateQuantifiers(asserts)...)
+	}
 	// theory lemmas bridging bit-vector and integer arithmetic (two rounds)
 	for round := 0; round < 2; round++ {
 		bf := bridgeFacts(asserts)
@@ -391,4 +397,35 @@ func (v *Verifier) solveText(o *Obligation, q string, qAbs string, gv []*Term, t
 	}
 	res.Status = "unknown"
 	return res
+}
+
+// skolemizeGoal: replace universal quantifiers in positive positions of a goal
+// by fresh constants (proving G[sk] for arbitrary sk proves G).
+func skolemizeGoal(g *Term) *Term {
+	switch g.Op {
+	case "=>":
+		return Implies(g.Args[0], skolemizeGoal(g.Args[1]))
+	case "and":
+		xs := make([]*Term, len(g.Args))
+		for i, a := range g.Args {
+			xs[i] = skolemizeGoal(a)
+		}
+		return And(xs...)
+	case "or":
+		xs := make([]*Term, len(g.Args))
+		for i, a := range g.Args {
+			xs[i] = skolemizeGoal(a)
+		}
+		return Or(xs...)
+	case "forall":
+		if g.hasB {
+			return g
+		}
+		m := map[*Term]*Term{}
+		for _, b := range g.Bound {
+			m[b] = Fresh("sk!"+strings.TrimPrefix(b.Name, "b!"), b.S)
+		}
+		return skolemizeGoal(Subst(g.Args[0], m))
+	}
+	return g
 }
